@@ -47,7 +47,7 @@ func cfgEv(c *raft.Configuration) Ev {
 	if c != nil {
 		idx = int(c.Index)
 	}
-	return Ev{"i": idx, "v": v, "n": nv}
+	return Ev{"i": idx, "v": v, "n": nv, "cs": fmt.Sprintf("cfg%d:%v|%v", idx, v, nv)}
 }
 
 func (c *Cluster) cfgBytesEv(data []byte) Ev {
